@@ -4,7 +4,7 @@
     the coverage simulation ([sim2_all] supplies [Good] at every intermediate
     state), then through every edit. *)
 From Coq Require Import List ZArith Bool Arith Lia.
-From MX Require Import Exec.Model Exec.Spec Exec.Basics Exec.SpecMono Exec.Sim Exec.Reads Exec.Cover
+From MX Require Import Exec.Model Exec.Spec Exec.Basics Exec.SpecMono Exec.Masks Exec.Sim Exec.Reads Exec.Cover
   Exec.Cover2 Exec.Sim2 Exec.Quiet Exec.Edits2.
 Import ListNotations.
 
@@ -73,21 +73,21 @@ Definition ex_expr (f : nat) : Prop :=
     eval_expr f st args locs line e = (r, st') -> r <> OutOfFuel ->
     Good st -> s_reent st' = false -> Ctx st me d ->
     exA st st' (NC st) /\
-    (r <> Err KDeep -> forall g me' r' ds,
+    (r <> Err KDeep -> s_masks st' = s_masks st -> forall g me' r' ds,
        dr_expr g (defs_of st) (input_data st) me' args locs e = (r', ds) -> r' <> OutOfFuel -> exB st st' (NC st) ds).
 Definition ex_args (f : nat) : Prop :=
   forall st args locs line es r st' me d,
     eval_args f st args locs line es = (r, st') -> r <> OutOfFuel ->
     Good st -> s_reent st' = false -> Ctx st me d ->
     exA st st' (NC st) /\
-    (r <> Err KDeep -> forall g me' r' ds,
+    (r <> Err KDeep -> s_masks st' = s_masks st -> forall g me' r' ds,
        dr_args g (defs_of st) (input_data st) me' args locs es = (r', ds) -> r' <> OutOfFuel -> exB st st' (NC st) ds).
 Definition ex_node (f : nat) : Prop :=
   forall st line i r st' d,
     eval_node f st line i = (r, st') -> r <> OutOfFuel ->
     Good st -> s_reent st' = false -> d = List.length (s_stack st) - 1 ->
     exA st st' (NC st) /\
-    (r <> Err KDeep -> forall g r' ds,
+    (r <> Err KDeep -> s_masks st' = s_masks st -> forall g r' ds,
        dr_node g (defs_of st) (input_data st) i = (r', ds) -> r' <> OutOfFuel -> exB st st' (NC st) ds).
 Definition ex_formula (f : nat) : Prop :=
   forall st cl i r st' d,
@@ -96,14 +96,14 @@ Definition ex_formula (f : nat) : Prop :=
     lookup_cell (s_cells st) (fst i) = Some cl ->
     (if cl_cached cl then lookup_data (s_data st) i else None) = None ->
     exA st st' (NC st) /\
-    (r <> Err KDeep -> forall g r' ds,
+    (r <> Err KDeep -> s_masks st' = s_masks st -> forall g r' ds,
        dr_node g (defs_of st) (input_data st) i = (r', ds) -> r' <> OutOfFuel -> exB st st' (NC st) ds).
 Definition ex_body (f : nat) : Prop :=
   forall st args locs whole rest idx r st' ln me d,
     exec_body f st args locs whole rest idx = (r, st', ln) -> r <> OutOfFuel ->
     Good st -> s_reent st' = false -> Ctx st me d ->
     exA st st' (NC st) /\
-    (r <> Err KDeep -> forall g me' r' ds,
+    (r <> Err KDeep -> s_masks st' = s_masks st -> forall g me' r' ds,
        dr_body g (defs_of st) (input_data st) me' args locs rest = (r', ds) -> r' <> OutOfFuel -> exB st st' (NC st) ds).
 
 Lemma NC_frame st st' : frame st st' -> NC st' = NC st.
@@ -135,19 +135,19 @@ Proof.
   - (* ---------------- expressions ---------------- *)
     intros st args locs line e r st' me d H Hr HG Hre HC.
     destruct e; simpl in H;
-      try (inversion H; subst; split; [apply exA_same; reflexivity|intros _ g me' r' ds _ _; apply exB_same; reflexivity]; fail).
+      try (inversion H; subst; split; [apply exA_same; reflexivity|intros _ _ g me' r' ds _ _; apply exB_same; reflexivity]; fail).
     + (* EBin *)
       destruct (eval_expr f st args locs line e1) as [r1 st1] eqn:E1.
       assert (Hr1 : r1 <> OutOfFuel) by (intros ->; inversion H; subst; congruence).
       destruct (SE _ _ _ _ _ _ _ E1 Hr1 (proj1 HG)) as (I1 & F1 & A1).
       destruct r1 as [va|k1|]; [| |congruence].
       2:{ inversion H; subst. destruct (IHe _ _ _ _ _ _ _ me d E1 Hr1 HG Hre HC) as (XA & XB).
-          split; [exact XA|]. intros Hk g me' r' ds Hd Hr'.
+          split; [exact XA|]. intros Hk Hmk g me' r' ds Hd Hr'.
           destruct g; [simpl in Hd; inversion Hd; congruence|]. simpl in Hd.
           destruct (dr_expr g (defs_of st) (input_data st) me' args locs e1) as [ra d1] eqn:Da.
           assert (Hra : ra <> OutOfFuel) by (intros ->; inversion Hd; congruence).
-          pose proof (align_dr_expr _ _ _ _ _ _ _ _ _ _ A1 ltac:(discriminate) Hk Da Hra) as ->.
-          inversion Hd; subst. eapply XB; eauto. }
+          pose proof (align_dr_expr _ _ _ _ _ _ _ _ _ _ (A1 ltac:(mk)) ltac:(discriminate) Hk Da Hra) as ->.
+          inversion Hd; subst. eapply XB; eauto; mk. }
       destruct (eval_expr f st1 args locs line e2) as [r2 st2] eqn:E2.
       assert (Hr2 : r2 <> OutOfFuel) by (intros ->; inversion H; subst; congruence).
       assert (Hst : st' = st2) by (destruct r2; inversion H; reflexivity). subst st2.
@@ -159,17 +159,17 @@ Proof.
       destruct (IHe _ _ _ _ _ _ _ me d E2 Hr2 G1 Hre (Ctx_frame _ _ _ _ F1 HC)) as (XA2 & XB2).
       destruct (frame_defs _ _ F1) as (D1 & Q1). rewrite (NC_frame _ _ F1) in XA2, XB2. rewrite D1, Q1 in XB2.
       split; [eapply exA_trans; eauto|].
-      intros Hk g me' r' ds Hd Hr'.
+      intros Hk Hmk g me' r' ds Hd Hr'.
       assert (Hk2 : r2 <> Err KDeep).
       { intros ->. inversion H; subst. now apply Hk. }
       destruct g; [simpl in Hd; inversion Hd; congruence|]. simpl in Hd.
       destruct (dr_expr g (defs_of st) (input_data st) me' args locs e1) as [ra d1] eqn:Da.
       assert (Hra : ra <> OutOfFuel) by (intros ->; inversion Hd; congruence).
-      pose proof (align_dr_expr _ _ _ _ _ _ _ _ _ _ A1 ltac:(discriminate) ltac:(discriminate) Da Hra) as ->.
+      pose proof (align_dr_expr _ _ _ _ _ _ _ _ _ _ (A1 ltac:(mk)) ltac:(discriminate) ltac:(discriminate) Da Hra) as ->.
       destruct (dr_expr g (defs_of st) (input_data st) me' args locs e2) as [rb d2] eqn:Db.
       assert (Hrb : rb <> OutOfFuel) by (intros ->; inversion Hd; congruence).
       assert (ds = d1 ++ d2) by (destruct rb; inversion Hd; reflexivity). subst ds.
-      eapply exB_app; [eapply XB1; eauto; discriminate|eapply XB2; eauto].
+      eapply exB_app; [eapply XB1; eauto; first [discriminate|mk]|eapply XB2; eauto; mk].
     + (* EIfPos *)
       destruct (eval_expr f st args locs line e1) as [r1 st1] eqn:E1.
       assert (Hr1 : r1 <> OutOfFuel) by (intros ->; inversion H; subst; congruence).
@@ -177,20 +177,20 @@ Proof.
       assert (Hstop : forall rr, r1 = rr -> (r, st') = (match rr with Val (VInt _) => (r, st') | Val VNone => (Err KType, st1) | x => (x, st1) end) ->
                       (match rr with Val (VInt _) => False | _ => True end) ->
                       exA st st' (NC st) /\
-                      (r <> Err KDeep -> forall g me' r' ds,
+                      (r <> Err KDeep -> s_masks st' = s_masks st -> forall g me' r' ds,
                          dr_expr g (defs_of st) (input_data st) me' args locs (EIfPos e1 e2 e3) = (r', ds) ->
                          r' <> OutOfFuel -> exB st st' (NC st) ds)).
       { intros rr -> Hq Hn. assert (Hs : st' = st1) by (destruct rr as [[z|]|k|]; inversion Hq; try reflexivity; contradiction).
         subst st1. destruct (IHe _ _ _ _ _ _ _ me d E1 Hr1 HG Hre HC) as (XA & XB).
-        split; [exact XA|]. intros Hk g me' r' ds Hd Hr'.
+        split; [exact XA|]. intros Hk Hmk g me' r' ds Hd Hr'.
         destruct g; [simpl in Hd; inversion Hd; congruence|]. simpl in Hd.
         destruct (dr_expr g (defs_of st) (input_data st) me' args locs e1) as [ra d1] eqn:Da.
         assert (Hra : ra <> OutOfFuel).
         { intros ->. inversion Hd; congruence. }
         assert (Hk1 : rr <> Err KDeep).
         { intros ->. inversion Hq; subst. now apply Hk. }
-        pose proof (align_dr_expr _ _ _ _ _ _ _ _ _ _ A1 Hr1 Hk1 Da Hra) as ->.
-        destruct rr as [[z|]|k|]; [contradiction| | |congruence]; inversion Hd; subst; eapply XB; eauto. }
+        pose proof (align_dr_expr _ _ _ _ _ _ _ _ _ _ (A1 ltac:(mk)) Hr1 Hk1 Da Hra) as ->.
+        destruct rr as [[z|]|k|]; [contradiction| | |congruence]; inversion Hd; subst; eapply XB; eauto; mk. }
       destruct r1 as [[z|]|k1|]; [| | |congruence].
       2:{ apply (Hstop (Val VNone) eq_refl); [inversion H; reflexivity|exact I]. }
       2:{ apply (Hstop (Err k1) eq_refl); [inversion H; reflexivity|exact I]. }
@@ -206,16 +206,16 @@ Proof.
       destruct (IHe _ _ _ _ _ _ _ me d E2 Hr G1 Hre (Ctx_frame _ _ _ _ F1 HC)) as (XA2 & XB2).
       destruct (frame_defs _ _ F1) as (D1 & Q1). rewrite (NC_frame _ _ F1) in XA2, XB2. rewrite D1, Q1 in XB2.
       split; [eapply exA_trans; eauto|].
-      intros Hk g me' r' ds Hd Hr'.
+      intros Hk Hmk g me' r' ds Hd Hr'.
       destruct g; [simpl in Hd; inversion Hd; congruence|]. simpl in Hd.
       destruct (dr_expr g (defs_of st) (input_data st) me' args locs e1) as [ra d1] eqn:Da.
       assert (Hra : ra <> OutOfFuel) by (intros ->; inversion Hd; congruence).
-      pose proof (align_dr_expr _ _ _ _ _ _ _ _ _ _ A1 ltac:(discriminate) ltac:(discriminate) Da Hra) as ->.
+      pose proof (align_dr_expr _ _ _ _ _ _ _ _ _ _ (A1 ltac:(mk)) ltac:(discriminate) ltac:(discriminate) Da Hra) as ->.
       destruct (dr_expr g (defs_of st) (input_data st) me' args locs eb) as [rb d2] eqn:Db.
       assert (Hd' : (rb, d1 ++ d2) = (r', ds)).
       { subst eb. destruct (Z.ltb 0 z); rewrite Db in Hd; exact Hd. }
       inversion Hd'; subst r' ds.
-      eapply exB_app; [eapply XB1; eauto; discriminate|eapply XB2; eauto].
+      eapply exB_app; [eapply XB1; eauto; first [discriminate|mk]|eapply XB2; eauto; mk].
     + (* ECall *)
       destruct (eval_args f st args locs line args0) as [r1 st1] eqn:E1.
       assert (Hr1 : r1 <> OutOfFuel) by (intros ->; inversion H; subst; congruence).
@@ -224,40 +224,40 @@ Proof.
       (* the three ways of stopping after the arguments *)
       assert (Hstop : st' = st1 ->
                 (forall g me' r' ds, dr_expr (S g) (defs_of st) (input_data st) me' args locs (ECall c args0) = (r', ds) ->
-                   r' <> OutOfFuel -> r <> Err KDeep ->
+                   r' <> OutOfFuel -> r <> Err KDeep -> s_masks st' = s_masks st ->
                    exists ra, dr_args g (defs_of st) (input_data st) me' args locs args0 = (ra, ds) /\ ra <> OutOfFuel) ->
                 exA st st' (NC st) /\
-                (r <> Err KDeep -> forall g me' r' ds,
+                (r <> Err KDeep -> s_masks st' = s_masks st -> forall g me' r' ds,
                    dr_expr g (defs_of st) (input_data st) me' args locs (ECall c args0) = (r', ds) ->
                    r' <> OutOfFuel -> exB st st' (NC st) ds)).
       { intros -> Hsh. destruct (IHa _ _ _ _ _ _ _ me d E1 Hr1 HG Hre HC) as (XA & XB).
-        split; [exact XA|]. intros Hk g me' r' ds Hd Hr'.
+        split; [exact XA|]. intros Hk Hmk g me' r' ds Hd Hr'.
         destruct g; [simpl in Hd; inversion Hd; congruence|].
-        destruct (Hsh _ _ _ _ Hd Hr' Hk) as (ra & Da & Hra).
+        destruct (Hsh _ _ _ _ Hd Hr' Hk Hmk) as (ra & Da & Hra).
         assert (Hk1 : r1 <> Err KDeep).
         { intros ->. inversion H; subst. now apply Hk. }
-        eapply XB; eauto. }
+        eapply XB; eauto; mk. }
       destruct r1 as [vs|k1|]; [| |congruence].
       2:{ inversion H; subst. apply Hstop; [reflexivity|].
-          intros g me' r' ds Hd Hr' Hk. simpl in Hd.
+          intros g me' r' ds Hd Hr' Hk Hmk. simpl in Hd.
           destruct (dr_args g (defs_of st) (input_data st) me' args locs args0) as [ra d1] eqn:Da.
           assert (Hra : ra <> OutOfFuel) by (intros ->; inversion Hd; congruence).
-          pose proof (align_dr_args _ _ _ _ _ _ _ _ _ _ A1 ltac:(discriminate) ltac:(intros E; inversion E; subst; now apply Hk) Da Hra) as ->.
+          pose proof (align_dr_args _ _ _ _ _ _ _ _ _ _ (A1 ltac:(mk)) ltac:(discriminate) ltac:(intros E; inversion E; subst; now apply Hk) Da Hra) as ->.
           inversion Hd; subst. eexists; split; [reflexivity|discriminate]. }
       destruct (lookup_cell (s_cells st) c) as [cl|] eqn:El.
       2:{ inversion H; subst. apply Hstop; [reflexivity|].
-          intros g me' r' ds Hd Hr' Hk. simpl in Hd.
+          intros g me' r' ds Hd Hr' Hk Hmk. simpl in Hd.
           destruct (dr_args g (defs_of st) (input_data st) me' args locs args0) as [ra d1] eqn:Da.
           assert (Hra : ra <> OutOfFuel) by (intros ->; inversion Hd; congruence).
-          pose proof (align_dr_args _ _ _ _ _ _ _ _ _ _ A1 ltac:(discriminate) ltac:(discriminate) Da Hra) as ->.
+          pose proof (align_dr_args _ _ _ _ _ _ _ _ _ _ (A1 ltac:(mk)) ltac:(discriminate) ltac:(discriminate) Da Hra) as ->.
           unfold defs_of in Hd; simpl in Hd. rewrite El in Hd.
           inversion Hd; subst. eexists; split; [reflexivity|discriminate]. }
       destruct (bind_pos cl vs) as [kk|] eqn:Eb.
       2:{ inversion H; subst. apply Hstop; [reflexivity|].
-          intros g me' r' ds Hd Hr' Hk. simpl in Hd.
+          intros g me' r' ds Hd Hr' Hk Hmk. simpl in Hd.
           destruct (dr_args g (defs_of st) (input_data st) me' args locs args0) as [ra d1] eqn:Da.
           assert (Hra : ra <> OutOfFuel) by (intros ->; inversion Hd; congruence).
-          pose proof (align_dr_args _ _ _ _ _ _ _ _ _ _ A1 ltac:(discriminate) ltac:(discriminate) Da Hra) as ->.
+          pose proof (align_dr_args _ _ _ _ _ _ _ _ _ _ (A1 ltac:(mk)) ltac:(discriminate) ltac:(discriminate) Da Hra) as ->.
           unfold defs_of in Hd; simpl in Hd. rewrite El, Eb in Hd.
           inversion Hd; subst. eexists; split; [reflexivity|discriminate]. }
       clear Hstop.
@@ -269,33 +269,33 @@ Proof.
       destruct (IHn _ _ _ _ _ d H Hr G1 Hre (Ctx_depth _ _ _ (Ctx_frame _ _ _ _ F1 HC))) as (XA2 & XB2).
       destruct (frame_defs _ _ F1) as (D1 & Q1). rewrite (NC_frame _ _ F1) in XA2, XB2. rewrite D1, Q1 in XB2.
       split; [eapply exA_trans; eauto|].
-      intros Hk g me' r' ds Hd Hr'.
+      intros Hk Hmk g me' r' ds Hd Hr'.
       destruct g; [simpl in Hd; inversion Hd; congruence|]. simpl in Hd.
       destruct (dr_args g (defs_of st) (input_data st) me' args locs args0) as [ra d1] eqn:Da.
       assert (Hra : ra <> OutOfFuel) by (intros ->; inversion Hd; congruence).
-      pose proof (align_dr_args _ _ _ _ _ _ _ _ _ _ A1 ltac:(discriminate) ltac:(discriminate) Da Hra) as ->.
+      pose proof (align_dr_args _ _ _ _ _ _ _ _ _ _ (A1 ltac:(mk)) ltac:(discriminate) ltac:(discriminate) Da Hra) as ->.
       unfold defs_of in Hd; simpl in Hd. rewrite El, Eb in Hd.
       destruct (dr_node g (s_cells st, s_refs st) (input_data st) (c, kk)) as [rb d2] eqn:Db.
       inversion Hd; subst r' ds.
-      eapply exB_app; [eapply XB1; eauto; discriminate|eapply XB2; eauto].
+      eapply exB_app; [eapply XB1; eauto; first [discriminate|mk]|eapply XB2; eauto; mk].
     + (* ERefA *)
       destruct (lookup_ref (s_refs st) r0) as [[sp v]|]; inversion H; subst;
-        (split; [apply exA_same; reflexivity|intros _ g me' r' ds _ _; apply exB_same; reflexivity]).
+        (split; [apply exA_same; reflexivity|intros _ _ g me' r' ds _ _; apply exB_same; reflexivity]).
   - (* ---------------- argument lists ---------------- *)
     intros st args locs line es r st' me d H Hr HG Hre HC.
     destruct es as [|e rest]; simpl in H.
-    { inversion H; subst. split; [apply exA_same; reflexivity|intros _ g me' r' ds _ _; apply exB_same; reflexivity]. }
+    { inversion H; subst. split; [apply exA_same; reflexivity|intros _ _ g me' r' ds _ _; apply exB_same; reflexivity]. }
     destruct (eval_expr f st args locs line e) as [r1 st1] eqn:E1.
     assert (Hr1 : r1 <> OutOfFuel) by (intros ->; inversion H; subst; congruence).
     destruct (SE _ _ _ _ _ _ _ E1 Hr1 (proj1 HG)) as (I1 & F1 & A1).
     destruct r1 as [v1|k1|]; [| |congruence].
     2:{ inversion H; subst. destruct (IHe _ _ _ _ _ _ _ me d E1 Hr1 HG Hre HC) as (XA & XB).
-        split; [exact XA|]. intros Hk g me' r' ds Hd Hr'.
+        split; [exact XA|]. intros Hk Hmk g me' r' ds Hd Hr'.
         destruct g; [simpl in Hd; inversion Hd; congruence|]. simpl in Hd.
         destruct (dr_expr g (defs_of st) (input_data st) me' args locs e) as [ra d1] eqn:Da.
         assert (Hra : ra <> OutOfFuel) by (intros ->; inversion Hd; congruence).
-        pose proof (align_dr_expr _ _ _ _ _ _ _ _ _ _ A1 ltac:(discriminate) ltac:(intros E; inversion E; subst; now apply Hk) Da Hra) as ->.
-        inversion Hd; subst. eapply XB; eauto. intros E; inversion E; subst; now apply Hk. }
+        pose proof (align_dr_expr _ _ _ _ _ _ _ _ _ _ (A1 ltac:(mk)) ltac:(discriminate) ltac:(intros E; inversion E; subst; now apply Hk) Da Hra) as ->.
+        inversion Hd; subst. eapply XB; eauto; first [mk|intros E; inversion E; subst; now apply Hk]. }
     destruct (eval_args f st1 args locs line rest) as [r2 st2] eqn:E2.
     assert (Hr2 : r2 <> OutOfFuel) by (intros ->; inversion H; subst; congruence).
     assert (Hst : st' = st2) by (destruct r2; inversion H; reflexivity). subst st2.
@@ -307,29 +307,29 @@ Proof.
     destruct (IHa _ _ _ _ _ _ _ me d E2 Hr2 G1 Hre (Ctx_frame _ _ _ _ F1 HC)) as (XA2 & XB2).
     destruct (frame_defs _ _ F1) as (D1 & Q1). rewrite (NC_frame _ _ F1) in XA2, XB2. rewrite D1, Q1 in XB2.
     split; [eapply exA_trans; eauto|].
-    intros Hk g me' r' ds Hd Hr'.
+    intros Hk Hmk g me' r' ds Hd Hr'.
     assert (Hk2 : r2 <> Err KDeep).
     { intros ->. inversion H; subst. now apply Hk. }
     destruct g; [simpl in Hd; inversion Hd; congruence|]. simpl in Hd.
     destruct (dr_expr g (defs_of st) (input_data st) me' args locs e) as [ra d1] eqn:Da.
     assert (Hra : ra <> OutOfFuel) by (intros ->; inversion Hd; congruence).
-    pose proof (align_dr_expr _ _ _ _ _ _ _ _ _ _ A1 ltac:(discriminate) ltac:(discriminate) Da Hra) as ->.
+    pose proof (align_dr_expr _ _ _ _ _ _ _ _ _ _ (A1 ltac:(mk)) ltac:(discriminate) ltac:(discriminate) Da Hra) as ->.
     destruct (dr_args g (defs_of st) (input_data st) me' args locs rest) as [rb d2] eqn:Db.
     assert (Hrb : rb <> OutOfFuel) by (intros ->; inversion Hd; congruence).
     assert (ds = d1 ++ d2) by (destruct rb; inversion Hd; reflexivity). subst ds.
-    eapply exB_app; [eapply XB1; eauto; discriminate|eapply XB2; eauto].
+    eapply exB_app; [eapply XB1; eauto; first [discriminate|mk]|eapply XB2; eauto; mk].
   - (* ---------------- element requested from a formula ---------------- *)
     intros st line i r st' d H Hr HG Hre Hdd. simpl in H.
     destruct (lookup_cell (s_cells st) (fst i)) as [cl|] eqn:El.
-    2:{ inversion H; subst. split; [apply exA_same; reflexivity|intros _ g r' ds _ _; apply exB_same; reflexivity]. }
+    2:{ inversion H; subst. split; [apply exA_same; reflexivity|intros _ _ g r' ds _ _; apply exB_same; reflexivity]. }
     destruct (if cl_cached cl then lookup_data (s_data st) i else None) as [v|] eqn:Eh; [|eapply IHf; eauto].
     destruct (cl_cached cl) eqn:Ec; [|discriminate].
     unfold NC. destruct (nearest_cached st (s_stack st)) as [jc|] eqn:En; inversion H; subst.
-    2:{ split; [apply exA_same; reflexivity|intros _ g r' ds _ _; apply exB_same; reflexivity]. }
+    2:{ split; [apply exA_same; reflexivity|intros _ _ g r' ds _ _; apply exB_same; reflexivity]. }
     split.
     + intros a b He. apply g_add_edge_edges in He as [He|He]; [|now left].
       right; left. exists jc. split; [reflexivity|]. congruence.
-    + intros _ g r' ds Hd Hr' j a Hj He. inversion Hj; subst j.
+    + intros _ _ g r' ds Hd Hr' j a Hj He. inversion Hj; subst j.
       apply g_add_edge_edges in He as [He|He]; [|now left]. right.
       assert (a = node_of i) by congruence. subst a. rewrite rd_of_node_item.
       destruct g; [simpl in Hd; inversion Hd; congruence|]. simpl in Hd.
@@ -439,8 +439,8 @@ Proof.
     2:{ assert (Hs0 : st' = rollback_frame st2 ln) by (inversion H; reflexivity).
         assert (Hr0 : r = Err kb) by (inversion H; reflexivity).
         destruct (Rollback ln _ eq_refl eq_refl Hs0) as (RA & RB).
-        split; [exact RA|]. intros Hk g r' ds Hd Hr'. apply (RB g r' ds Hd Hr').
-        intros Ec g0 d0 rb' Db Hrb'. rewrite Ec in XB. eapply XB; eauto. rewrite <- Hr0. exact Hk. }
+        split; [exact RA|]. intros Hk Hmk g r' ds Hd Hr'. apply (RB g r' ds Hd Hr').
+        intros Ec g0 d0 rb' Db Hrb'. rewrite Ec in XB. eapply XB; eauto; first [mk|rewrite <- Hr0; exact Hk]. }
     destruct (tainted st2) eqn:Et.
     { (* returned, not kept: the graph changes as in a rollback *)
       assert (Hcase : (r, st') = (Err KNone, rollback_frame st2 0) \/ (r, st') = (Val v, pop_tainted st2)).
@@ -456,8 +456,11 @@ Proof.
         - assert (Hs0 : st' = pop_tainted st2) by (inversion H'; reflexivity).
           exact (Rollback 0 (pop_tainted st2) eq_refl eq_refl Hs0). }
       destruct RAB as (RA & RB).
-      split; [exact RA|]. intros Hk g r' ds Hd Hr'. apply (RB g r' ds Hd Hr').
-      intros Ec g0 d0 rb' Db Hrb'. rewrite Ec in XB. eapply XB; eauto. discriminate. }
+      assert (Hm2 : s_masks st' = s_masks st2).
+      { destruct Hcase as [H'|H']; inversion H'; subst; [apply rollback_frame_masks|].
+        unfold pop_tainted; simpl; apply rollback_frame_masks. }
+      split; [exact RA|]. intros Hk Hmk g r' ds Hd Hr'. apply (RB g r' ds Hd Hr').
+      intros Ec g0 d0 rb' Db Hrb'. rewrite Ec in XB. eapply XB; eauto; first [discriminate|mk]. }
     destruct (cl_cached cl) eqn:Ec.
     + (* cached *)
       assert (Hcase : (v = VNone /\ cl_allow_none cl = false) \/
@@ -468,7 +471,7 @@ Proof.
       destruct Hcase as [(-> & Ea)|(Hs & Hnc)].
       * unfold store_value in H. rewrite Ea in H. inversion H; subst r st'.
         destruct (Rollback 0 _ eq_refl eq_refl eq_refl) as (RA & RB).
-        split; [exact RA|]. intros Hk g r' ds Hd Hr'. apply (RB g r' ds Hd Hr'). intros Ec'; discriminate.
+        split; [exact RA|]. intros Hk Hmk g r' ds Hd Hr'. apply (RB g r' ds Hd Hr'). intros Ec'; discriminate.
       * rewrite Hs in H. inversion H; subst r st'. clear H.
         set (st3 := upd_data st2 (set_data (s_data st2) i v)) in *.
         assert (K3 : s_stack st3 = i :: s_stack st) by exact K2.
@@ -490,7 +493,7 @@ Proof.
           destruct (dr_body fo (s_cells st, s_refs st) (input_data st) (fst i) (snd i) [] (cl_body cl)) as [[vb|kb|] db] eqn:Db;
             [|inversion Ho|inversion Ho].
           assert (db = dso) by (inversion Ho; reflexivity). subst db.
-          destruct (XB ltac:(discriminate) fo (fst i) (Val vb) dso Db ltac:(discriminate) i a eq_refl Ha) as [X|X]; [|exact X].
+          destruct (XB ltac:(discriminate) (body_clean_masks _ _ _ _ _ _ _ _ _ _ Eb Et) fo (fst i) (Val vb) dso Db ltac:(discriminate) i a eq_refl Ha) as [X|X]; [|exact X].
           exfalso. exact (Hfresh eq_refl a X). }
         split.
         -- intros a b He. apply PE in He as [He|(jc & En & He)].
@@ -501,7 +504,7 @@ Proof.
               ** right; right. exists k. split; [reflexivity|]. split; [exact N|].
                  split; [now apply Hhas'|now apply HexAt].
            ++ right; left. exists jc. split; [exact En|]. congruence.
-        -- intros _ g r' ds Hd Hr' j a Hj He. destruct (Hjc j Hj) as (Hin & Hnh & Hne).
+        -- intros _ _ g r' ds Hd Hr' j a Hj He. destruct (Hjc j Hj) as (Hin & Hnh & Hne).
            apply PE in He as [He|(jc & En & He)].
            ++ change (s_edges st3) with (s_edges st2) in He.
               destruct (XA a _ He) as [X|[(j' & Ej & Eq)|(k & Eq & N & Hk & E)]]; [now left| |].
@@ -520,8 +523,8 @@ Proof.
         destruct (cl_allow_none cl); [right; now rewrite <- H|left; repeat split; now rewrite <- H]. }
       destruct Hcase as [(-> & Ea & H')|H']; inversion H'; subst r st'; clear H' H.
       { destruct (Rollback 0 _ eq_refl eq_refl eq_refl) as (RA & RB).
-        split; [exact RA|]. intros Hk g r' ds Hd Hr'. apply (RB g r' ds Hd Hr').
-        intros _ g0 d0 rb' Db Hrb'. eapply XB; eauto. discriminate. }
+        split; [exact RA|]. intros Hk Hmk g r' ds Hd Hr'. apply (RB g r' ds Hd Hr').
+        intros _ g0 d0 rb' Db Hrb'. eapply XB; eauto; first [discriminate|mk]. }
       destruct (pop_frame_graph st2 i (s_stack st) K2) as (PE & _).
       destruct (pop_frame_fields st2) as (_ & FD & _).
       assert (Hc2 : is_cached st2 (fst i) = false).
@@ -536,7 +539,7 @@ Proof.
            ++ right; right. exists k. split; [reflexivity|]. split; [exact N|].
               split; [now apply Hhas'|now apply HexAt].
         -- right; left. exists jc. split; [exact En|]. congruence.
-      * intros _ g r' ds Hd Hr' j a Hj He.
+      * intros _ _ g r' ds Hd Hr' j a Hj He.
         destruct g; [simpl in Hd; inversion Hd; congruence|]. simpl in Hd.
         unfold defs_of in Hd; simpl in Hd. rewrite El, Ec in Hd.
         destruct (dr_body g (s_cells st, s_refs st) (input_data st) (fst i) (snd i) [] (cl_body cl)) as [rg dg] eqn:Dg.
@@ -544,25 +547,25 @@ Proof.
         { destruct rg; inversion Hd; subst; split; auto; try discriminate. }
         destruct Hdg as (-> & Hrg).
         apply PE in He as [He|(jc & En & He)].
-        -- destruct (XB ltac:(discriminate) g (fst i) rg dg Dg Hrg j a Hj He) as [X|X]; [now left|right; now right].
+        -- destruct (XB ltac:(discriminate) (body_clean_masks _ _ _ _ _ _ _ _ _ _ Eb Et) g (fst i) rg dg Dg Hrg j a Hj He) as [X|X]; [now left|right; now right].
         -- right. left. assert (a = NObj (fst i)) by congruence. subst a. reflexivity.
   - (* ---------------- statements ---------------- *)
     intros st args locs whole rest idx r st' ln me d H Hr HG Hre HC.
     destruct rest as [|s more]; simpl in H.
-    { inversion H; subst. split; [apply exA_same; reflexivity|intros _ g me' r' ds _ _; apply exB_same; reflexivity]. }
-    destruct s as [e|e h].
+    { inversion H; subst. split; [apply exA_same; reflexivity|intros _ _ g me' r' ds _ _; apply exB_same; reflexivity]. }
+    destruct s as [e|e h|e fc].
     + (* SAssign *)
       destruct (eval_expr f st args locs (stmt_line whole idx) e) as [r1 st1] eqn:E1.
       assert (Hr1 : r1 <> OutOfFuel) by (intros ->; inversion H; subst; congruence).
       destruct (SE _ _ _ _ _ _ _ E1 Hr1 (proj1 HG)) as (I1 & F1 & A1).
       destruct r1 as [v1|k1|]; [| |congruence].
       2:{ inversion H; subst. destruct (IHe _ _ _ _ _ _ _ me d E1 Hr1 HG Hre HC) as (XA & XB).
-          split; [exact XA|]. intros Hk g me' r' ds Hd Hr'.
+          split; [exact XA|]. intros Hk Hmk g me' r' ds Hd Hr'.
           destruct g; [simpl in Hd; inversion Hd; congruence|]. simpl in Hd.
           destruct (dr_expr g (defs_of st) (input_data st) me' args locs e) as [ra d1] eqn:Da.
           assert (Hra : ra <> OutOfFuel) by (intros ->; inversion Hd; congruence).
-          pose proof (align_dr_expr _ _ _ _ _ _ _ _ _ _ A1 ltac:(discriminate) Hk Da Hra) as ->.
-          inversion Hd; subst. eapply XB; eauto. }
+          pose proof (align_dr_expr _ _ _ _ _ _ _ _ _ _ (A1 ltac:(mk)) ltac:(discriminate) Hk Da Hra) as ->.
+          inversion Hd; subst. eapply XB; eauto; mk. }
       assert (Hre1 : s_reent st1 = false) by exact (reent_false_of st1 st' (MB _ _ _ _ _ _ _ _ _ H) Hre).
       assert (Hre0 : s_reent st = false) by exact (reent_false_of st st1 (ME _ _ _ _ _ _ _ E1) Hre1).
       destruct (S2E _ _ _ _ _ _ _ me d E1 Hr1 HG Hre0 HC) as [X|(G1 & _)]; [congruence|].
@@ -571,14 +574,14 @@ Proof.
       destruct (IHb _ _ _ _ _ _ _ _ _ me d H Hr G1 Hre (Ctx_frame _ _ _ _ F1 HC)) as (XA2 & XB2).
       destruct (frame_defs _ _ F1) as (D1 & Q1). rewrite (NC_frame _ _ F1) in XA2, XB2. rewrite D1, Q1 in XB2.
       split; [eapply exA_trans; eauto|].
-      intros Hk g me' r' ds Hd Hr'.
+      intros Hk Hmk g me' r' ds Hd Hr'.
       destruct g; [simpl in Hd; inversion Hd; congruence|]. simpl in Hd.
       destruct (dr_expr g (defs_of st) (input_data st) me' args locs e) as [ra d1] eqn:Da.
       assert (Hra : ra <> OutOfFuel) by (intros ->; inversion Hd; congruence).
-      pose proof (align_dr_expr _ _ _ _ _ _ _ _ _ _ A1 ltac:(discriminate) ltac:(discriminate) Da Hra) as ->.
+      pose proof (align_dr_expr _ _ _ _ _ _ _ _ _ _ (A1 ltac:(mk)) ltac:(discriminate) ltac:(discriminate) Da Hra) as ->.
       destruct (dr_body g (defs_of st) (input_data st) me' args (locs ++ [v1]) more) as [rb d2] eqn:Db.
       inversion Hd; subst r' ds.
-      eapply exB_app; [eapply XB1; eauto; discriminate|eapply XB2; eauto].
+      eapply exB_app; [eapply XB1; eauto; first [discriminate|mk]|eapply XB2; eauto; mk].
     + (* STry *)
       destruct (eval_expr f st args locs (stmt_line whole idx + 1) e) as [r1 st1] eqn:E1.
       assert (Hr1 : r1 <> OutOfFuel) by (intros ->; inversion H; subst; congruence).
@@ -593,22 +596,22 @@ Proof.
         destruct (IHb _ _ _ _ _ _ _ _ _ me d H Hr G1 Hre (Ctx_frame _ _ _ _ F1 HC)) as (XA2 & XB2).
         rewrite (NC_frame _ _ F1) in XA2, XB2. rewrite D1, Q1 in XB2.
         split; [eapply exA_trans; eauto|].
-        intros Hk g me' r' ds Hd Hr'.
+        intros Hk Hmk g me' r' ds Hd Hr'.
         destruct g; [simpl in Hd; inversion Hd; congruence|]. simpl in Hd.
         destruct (dr_expr g (defs_of st) (input_data st) me' args locs e) as [ra d1] eqn:Da.
         assert (Hra : ra <> OutOfFuel) by (intros ->; inversion Hd; congruence).
-        pose proof (align_dr_expr _ _ _ _ _ _ _ _ _ _ A1 ltac:(discriminate) ltac:(discriminate) Da Hra) as ->.
+        pose proof (align_dr_expr _ _ _ _ _ _ _ _ _ _ (A1 ltac:(mk)) ltac:(discriminate) ltac:(discriminate) Da Hra) as ->.
         destruct (dr_body g (defs_of st) (input_data st) me' args (locs ++ [v1]) more) as [rb d2] eqn:Db.
         inversion Hd; subst r' ds.
-        eapply exB_app; [eapply XB1; eauto; discriminate|eapply XB2; eauto].
+        eapply exB_app; [eapply XB1; eauto; first [discriminate|mk]|eapply XB2; eauto; mk].
       * destruct (catchable k1) eqn:Ek.
         2:{ inversion H; subst. destruct (IHe _ _ _ _ _ _ _ me d E1 Hr1 HG Hre HC) as (XA & XB).
-            split; [exact XA|]. intros Hk g me' r' ds Hd Hr'.
+            split; [exact XA|]. intros Hk Hmk g me' r' ds Hd Hr'.
             destruct g; [simpl in Hd; inversion Hd; congruence|]. simpl in Hd.
             destruct (dr_expr g (defs_of st) (input_data st) me' args locs e) as [ra d1] eqn:Da.
             assert (Hra : ra <> OutOfFuel) by (intros ->; inversion Hd; congruence).
-            pose proof (align_dr_expr _ _ _ _ _ _ _ _ _ _ A1 ltac:(discriminate) Hk Da Hra) as ->.
-            rewrite Ek in Hd. inversion Hd; subst. eapply XB; eauto. }
+            pose proof (align_dr_expr _ _ _ _ _ _ _ _ _ _ (A1 ltac:(mk)) ltac:(discriminate) Hk Da Hra) as ->.
+            rewrite Ek in Hd. inversion Hd; subst. eapply XB; eauto; mk. }
         assert (Hk1 : @Err val k1 <> Err KDeep) by (intros E; inversion E; subst; discriminate).
         set (st1' := upd_rolled st1 []) in *.
         destruct (eval_expr f st1' args locs (stmt_line whole idx + 3) h) as [r2 st2] eqn:E2.
@@ -636,40 +639,149 @@ Proof.
         { eapply (exA_trans st st1 st2); [exact XA1|exact XA2|exact F1|exact F12]. }
         destruct r2 as [v2|k2|]; [| |congruence].
         2:{ inversion H; subst. split; [exact XA12|].
-            intros Hk g me' r' ds Hd Hr'.
+            intros Hk Hmk g me' r' ds Hd Hr'.
             destruct g; [simpl in Hd; inversion Hd; congruence|]. simpl in Hd.
             destruct (dr_expr g (defs_of st) (input_data st) me' args locs e) as [ra d1] eqn:Da.
             assert (Hra : ra <> OutOfFuel) by (intros ->; inversion Hd; congruence).
-            pose proof (align_dr_expr _ _ _ _ _ _ _ _ _ _ A1 ltac:(discriminate) Hk1 Da Hra) as ->.
+            pose proof (align_dr_expr _ _ _ _ _ _ _ _ _ _ (A1 ltac:(mk)) ltac:(discriminate) Hk1 Da Hra) as ->.
             rewrite Ek in Hd.
             destruct (dr_expr g (defs_of st) (input_data st) me' args locs h) as [rh d2] eqn:Dh.
             assert (Hrh : rh <> OutOfFuel) by (intros ->; inversion Hd; congruence).
             change (defs_of st1') with (defs_of st1) in A2. change (input_data st1') with (input_data st1) in A2.
             rewrite D1, Q1 in A2.
-            pose proof (align_dr_expr _ _ _ _ _ _ _ _ _ _ A2 ltac:(discriminate) Hk Dh Hrh) as ->.
+            pose proof (align_dr_expr _ _ _ _ _ _ _ _ _ _ (A2 ltac:(mk)) ltac:(discriminate) Hk Dh Hrh) as ->.
             inversion Hd; subst r' ds.
-            eapply exB_app; [eapply XB1; eauto|eapply XB2; eauto]. }
+            eapply exB_app; [eapply XB1; eauto; mk|eapply XB2; eauto; mk]. }
         destruct (S2E _ _ _ _ _ _ _ me d E2 Hr2 G1' Hre1 HC1) as [X|(G2 & _)]; [congruence|].
         destruct (SB _ _ _ _ _ _ _ _ _ H Hr I2) as (I3 & F3 & A3).
         assert (F02 : frame st st2) by (eapply frame_trans; eauto).
         destruct (IHb _ _ _ _ _ _ _ _ _ me d H Hr G2 Hre (Ctx_frame _ _ _ _ F02 HC)) as (XA3 & XB3).
         destruct (frame_defs _ _ F02) as (D2 & Q2). rewrite (NC_frame _ _ F02) in XA3, XB3. rewrite D2, Q2 in XB3.
         split; [eapply (exA_trans st st2 st'); eauto|].
-        intros Hk g me' r' ds Hd Hr'.
+        intros Hk Hmk g me' r' ds Hd Hr'.
         destruct g; [simpl in Hd; inversion Hd; congruence|]. simpl in Hd.
         destruct (dr_expr g (defs_of st) (input_data st) me' args locs e) as [ra d1] eqn:Da.
         assert (Hra : ra <> OutOfFuel) by (intros ->; inversion Hd; congruence).
-        pose proof (align_dr_expr _ _ _ _ _ _ _ _ _ _ A1 ltac:(discriminate) Hk1 Da Hra) as ->.
+        pose proof (align_dr_expr _ _ _ _ _ _ _ _ _ _ (A1 ltac:(mk)) ltac:(discriminate) Hk1 Da Hra) as ->.
         rewrite Ek in Hd.
         destruct (dr_expr g (defs_of st) (input_data st) me' args locs h) as [rh d2] eqn:Dh.
         assert (Hrh : rh <> OutOfFuel) by (intros ->; inversion Hd; congruence).
         change (defs_of st1') with (defs_of st1) in A2. change (input_data st1') with (input_data st1) in A2.
         rewrite D1, Q1 in A2.
-        pose proof (align_dr_expr _ _ _ _ _ _ _ _ _ _ A2 ltac:(discriminate) ltac:(discriminate) Dh Hrh) as ->.
+        pose proof (align_dr_expr _ _ _ _ _ _ _ _ _ _ (A2 ltac:(mk)) ltac:(discriminate) ltac:(discriminate) Dh Hrh) as ->.
         destruct (dr_body g (defs_of st) (input_data st) me' args (locs ++ [v2]) more) as [rb d3] eqn:Db.
         inversion Hd; subst r' ds.
-        eapply exB_app; [eapply XB1; eauto|].
-        eapply exB_app; [eapply XB2; eauto; discriminate|eapply XB3; eauto].
+        eapply exB_app; [eapply XB1; eauto; mk|].
+        eapply exB_app; [eapply XB2; eauto; first [discriminate|mk]|eapply XB3; eauto; mk].
+    + (* SFin *)
+      destruct (eval_expr f st args locs (stmt_line whole idx + 1) e) as [r1 st1] eqn:E1.
+      assert (Hr1 : r1 <> OutOfFuel) by (intros ->; inversion H; subst; congruence).
+      destruct (SE _ _ _ _ _ _ _ E1 Hr1 (proj1 HG)) as (I1 & F1 & A1).
+      destruct (frame_defs _ _ F1) as (D1 & Q1).
+      destruct r1 as [v1|k1|]; [| |congruence].
+      * destruct (eval_expr f st1 args locs (stmt_line whole idx + 3) fc) as [r2 st2] eqn:E2.
+        assert (Hr2 : r2 <> OutOfFuel) by (intros ->; inversion H; subst; congruence).
+        destruct (SE _ _ _ _ _ _ _ E2 Hr2 I1) as (I2 & F2 & A2).
+        assert (Hmono2 : s_reent st2 = true -> s_reent st' = true).
+        { intros X. destruct r2 as [v2|k2|]; [eapply MB; eauto|inversion H; subst; exact X|congruence]. }
+        assert (Hre2 : s_reent st2 = false) by exact (reent_false_of st2 st' Hmono2 Hre).
+        assert (Hre1 : s_reent st1 = false) by exact (reent_false_of st1 st2 (ME _ _ _ _ _ _ _ E2) Hre2).
+        assert (Hre0 : s_reent st = false) by exact (reent_false_of st st1 (ME _ _ _ _ _ _ _ E1) Hre1).
+        destruct (S2E _ _ _ _ _ _ _ me d E1 Hr1 HG Hre0 HC) as [X|(G1 & _)]; [congruence|].
+        assert (HC1 : Ctx st1 me d) by exact (Ctx_frame _ _ _ _ F1 HC).
+        destruct (IHe _ _ _ _ _ _ _ me d E1 Hr1 HG Hre1 HC) as (XA1 & XB1).
+        destruct (IHe _ _ _ _ _ _ _ me d E2 Hr2 G1 Hre2 HC1) as (XA2 & XB2).
+        rewrite (NC_frame _ _ F1) in XA2, XB2. rewrite D1, Q1 in XB2. rewrite D1, Q1 in A2.
+        assert (XA12 : exA st st2 (NC st)).
+        { eapply (exA_trans st st1 st2); [exact XA1|exact XA2|exact F1|exact F2]. }
+        destruct r2 as [v2|k2|]; [| |congruence].
+        2:{ inversion H; subst. split; [exact XA12|].
+            intros Hk Hmk g me' r' ds Hd Hr'.
+            destruct g; [simpl in Hd; inversion Hd; congruence|]. simpl in Hd.
+            destruct (dr_expr g (defs_of st) (input_data st) me' args locs e) as [ra d1] eqn:Da.
+            assert (Hra : ra <> OutOfFuel) by (intros ->; inversion Hd; congruence).
+            pose proof (align_dr_expr _ _ _ _ _ _ _ _ _ _ (A1 ltac:(mk)) ltac:(discriminate) ltac:(discriminate) Da Hra) as ->.
+            destruct (dr_expr g (defs_of st) (input_data st) me' args locs fc) as [rh d2] eqn:Dh.
+            assert (Hrh : rh <> OutOfFuel) by (intros ->; inversion Hd; congruence).
+            pose proof (align_dr_expr _ _ _ _ _ _ _ _ _ _ (A2 ltac:(mk)) ltac:(discriminate) Hk Dh Hrh) as ->.
+            inversion Hd; subst r' ds.
+            eapply (exB_incl _ _ _ (d1 ++ d2)); [intros x Hx; now right|].
+            eapply exB_app; [eapply XB1; eauto; first [discriminate|mk]|eapply XB2; eauto; mk]. }
+        destruct (S2E _ _ _ _ _ _ _ me d E2 Hr2 G1 Hre1 HC1) as [X|(G2 & _)]; [congruence|].
+        destruct (SB _ _ _ _ _ _ _ _ _ H Hr I2) as (I3 & F3 & A3).
+        assert (F02 : frame st st2) by (eapply frame_trans; eauto).
+        destruct (IHb _ _ _ _ _ _ _ _ _ me d H Hr G2 Hre (Ctx_frame _ _ _ _ F02 HC)) as (XA3 & XB3).
+        destruct (frame_defs _ _ F02) as (D2 & Q2). rewrite (NC_frame _ _ F02) in XA3, XB3. rewrite D2, Q2 in XB3.
+        split; [eapply (exA_trans st st2 st'); eauto|].
+        intros Hk Hmk g me' r' ds Hd Hr'.
+        destruct g; [simpl in Hd; inversion Hd; congruence|]. simpl in Hd.
+        destruct (dr_expr g (defs_of st) (input_data st) me' args locs e) as [ra d1] eqn:Da.
+        assert (Hra : ra <> OutOfFuel) by (intros ->; inversion Hd; congruence).
+        pose proof (align_dr_expr _ _ _ _ _ _ _ _ _ _ (A1 ltac:(mk)) ltac:(discriminate) ltac:(discriminate) Da Hra) as ->.
+        destruct (dr_expr g (defs_of st) (input_data st) me' args locs fc) as [rh d2] eqn:Dh.
+        assert (Hrh : rh <> OutOfFuel) by (intros ->; inversion Hd; congruence).
+        pose proof (align_dr_expr _ _ _ _ _ _ _ _ _ _ (A2 ltac:(mk)) ltac:(discriminate) ltac:(discriminate) Dh Hrh) as ->.
+        destruct (dr_body g (defs_of st) (input_data st) me' args (locs ++ [v1]) more) as [rb d3] eqn:Db.
+        inversion Hd; subst r' ds.
+        eapply exB_app; [eapply XB1; eauto; first [discriminate|mk]|].
+        eapply exB_app; [eapply XB2; eauto; first [discriminate|mk]|eapply XB3; eauto; mk].
+      * set (st1' := upd_rolled st1 []) in *.
+        destruct (eval_expr f st1' args locs (stmt_line whole idx + 3) fc) as [r2 st2] eqn:E2.
+        assert (Hr2 : r2 <> OutOfFuel) by (intros ->; inversion H; subst; congruence).
+        assert (I1' : Inv st1') by exact I1.
+        destruct (SE _ _ _ _ _ _ _ E2 Hr2 I1') as (I2 & F2 & A2).
+        assert (F12 : frame st1 st2) by exact F2.
+        assert (Hre2 : s_reent st2 = false).
+        { destruct r2 as [w|k2|]; [| |congruence]; inversion H; subst; [exact Hre|].
+          destruct (ekind_eqb k1 KDeep); exact Hre. }
+        assert (Hre1 : s_reent st1 = false) by exact (reent_false_of st1' st2 (ME _ _ _ _ _ _ _ E2) Hre2).
+        assert (Hre0 : s_reent st = false) by exact (reent_false_of st st1 (ME _ _ _ _ _ _ _ E1) Hre1).
+        destruct (S2E _ _ _ _ _ _ _ me d E1 Hr1 HG Hre0 HC) as [X|(G1 & _)]; [congruence|].
+        assert (G1' : Good st1').
+        { destruct G1 as (HI1 & C1' & SO1). split; [exact HI1|]. split; [|exact SO1]. constructor; apply C1'. }
+        assert (HC1 : Ctx st1' me d) by exact (Ctx_frame _ _ _ _ F1 HC).
+        destruct (IHe _ _ _ _ _ _ _ me d E1 Hr1 HG Hre1 HC) as (XA1 & XB1).
+        destruct (IHe _ _ _ _ _ _ _ me d E2 Hr2 G1' Hre2 HC1) as (XA2 & XB2).
+        assert (Hnc1 : NC st1' = NC st).
+        { rewrite <- (NC_frame _ _ F1). unfold NC. change (s_stack st1') with (s_stack st1).
+          apply nearest_cached_cells. reflexivity. }
+        change (defs_of st1') with (defs_of st1) in XB2. change (input_data st1') with (input_data st1) in XB2.
+        rewrite Hnc1 in XA2, XB2. rewrite D1, Q1 in XB2.
+        assert (XA12 : exA st st2 (NC st)).
+        { eapply (exA_trans st st1 st2); [exact XA1|exact XA2|exact F1|exact F12]. }
+        change (defs_of st1') with (defs_of st1) in A2. change (input_data st1') with (input_data st1) in A2.
+        rewrite D1, Q1 in A2.
+        destruct r2 as [w|k2|]; [| |congruence]; inversion H; subst.
+        -- split; [exact XA12|].
+           intros Hk Hmk g me' r' ds Hd Hr'.
+           assert (Hk1 : @Err val k1 <> Err KDeep) by exact Hk.
+           destruct g; [simpl in Hd; inversion Hd; congruence|]. simpl in Hd.
+           destruct (dr_expr g (defs_of st) (input_data st) me' args locs e) as [ra d1] eqn:Da.
+           assert (Hra : ra <> OutOfFuel) by (intros ->; inversion Hd; congruence).
+           pose proof (align_dr_expr _ _ _ _ _ _ _ _ _ _ (A1 ltac:(mk)) ltac:(discriminate) Hk1 Da Hra) as ->.
+           destruct (dr_expr g (defs_of st) (input_data st) me' args locs fc) as [rh d2] eqn:Dh.
+           assert (Hrh : rh <> OutOfFuel) by (intros ->; inversion Hd; congruence).
+           pose proof (align_dr_expr _ _ _ _ _ _ _ _ _ _ (A2 ltac:(mk)) ltac:(discriminate) ltac:(discriminate) Dh Hrh) as ->.
+           inversion Hd; subst r' ds.
+           eapply (exB_incl _ _ _ (d1 ++ d2)); [intros x Hx; now right|].
+           assert (XB' : exB st st2 (NC st) (d1 ++ d2)).
+           { eapply exB_app; [eapply XB1; eauto; mk|eapply XB2; eauto; first [discriminate|mk]]. }
+           exact XB'.
+        -- destruct (ekind_eqb k1 KDeep) eqn:Ed.
+           { split; [exact XA12|]. intros Hk Hmk. exfalso. clear A1 A2 XB1 XB2. mk. }
+           assert (Hk1 : @Err val k1 <> Err KDeep) by (intros E; inversion E; subst; discriminate).
+           split; [exact XA12|].
+           intros Hk Hmk g me' r' ds Hd Hr'.
+           destruct g; [simpl in Hd; inversion Hd; congruence|]. simpl in Hd.
+           destruct (dr_expr g (defs_of st) (input_data st) me' args locs e) as [ra d1] eqn:Da.
+           assert (Hra : ra <> OutOfFuel) by (intros ->; inversion Hd; congruence).
+           pose proof (align_dr_expr _ _ _ _ _ _ _ _ _ _ (A1 ltac:(mk)) ltac:(discriminate) Hk1 Da Hra) as ->.
+           destruct (dr_expr g (defs_of st) (input_data st) me' args locs fc) as [rh d2] eqn:Dh.
+           assert (Hrh : rh <> OutOfFuel) by (intros ->; inversion Hd; congruence).
+           pose proof (align_dr_expr _ _ _ _ _ _ _ _ _ _ (A2 ltac:(mk)) ltac:(discriminate) Hk Dh Hrh) as ->.
+           inversion Hd; subst r' ds.
+           eapply (exB_incl _ _ _ (d1 ++ d2)); [intros x Hx; now right|].
+           eapply exB_app; [eapply XB1; eauto; mk|eapply XB2; eauto; mk].
 Qed.
 
 (** * The invariant on quiescent states *)
